@@ -562,6 +562,10 @@ class ExcelCompiler:
                     processed_cells.add(child_address)
                     child_cell = self.cell_map[child_address]
                     if child_address in needed_cells or ':' in child_address:
+                        if child_cell.formula:
+                            # array formulas and references for unbounded
+                            # ranges are needed when loading from a file
+                            needed_cells.add(child_address)
                         walk_precedents(child_cell)
                     else:
                         # trim this cell, now we will need only its value
